@@ -602,3 +602,112 @@ func ruleLeafListTyped(c *Ctx, r *Report) {
 	r.Check(len(missing) == 0, "protomap.typedLeafList:element-types", c.Pos(ts.Pos()), "arms for string, uint64 and []byte",
 		"typedLeafList dispatches on the element type without an arm for "+strings.Join(missing, ", ")+": ProtoFromPaths(new, PathsFromProto(m)) fails for a leaf-list of that kind")
 }
+
+// ---- R-ENUM-UNSET-RENDER (C17) -----------------------------------------------------------------
+
+// ruleEnumUnsetRender: enumFieldToString returns (name, set, err); for the zero value it returns
+// ("", false, nil). A caller that discards `set` renders an UNSET enumeration as the empty string —
+// as a list key, or as a member of a leaf-list — instead of skipping the leaf or failing.
+func ruleEnumUnsetRender(c *Ctx, r *Report) {
+	r.Rule("R-ENUM-UNSET-RENDER", "every caller of ygot.enumFieldToString reads the `set` result (an UNSET enumeration is skipped or is an error, never rendered as \"\"); the one exception is ygot.EnumName, whose documented contract is to return \"\" for an unset value", 6)
+	for _, f := range c.AllFuncs("ygot") {
+		info := f.Info()
+		pm := c.parentMap(f.File)
+		n := 0
+		for _, call := range CallsIn(info, f.Decl.Body, P("ygot")+".enumFieldToString") {
+			n++
+			key := fmt.Sprintf("%s:enumFieldToString#%d:set-read", f.Name, n)
+			as, ok := pm[call].(*ast.AssignStmt)
+			if !ok || len(as.Lhs) != 3 {
+				r.Und(key, c.Pos(call.Pos()), "call result not assigned to three variables")
+				continue
+			}
+			id, isID := as.Lhs[1].(*ast.Ident)
+			read := isID && id.Name != "_"
+			if !read && f.Name == "ygot.EnumName" {
+				r.Exc(key, c.Pos(call.Pos()), "EnumName's documented contract: \"If the enumeration is unset, the name returned is an empty string\"")
+				continue
+			}
+			r.Check(read, key, c.Pos(call.Pos()), "set result read",
+				f.Name+" discards the `set` result of enumFieldToString: an UNSET (zero) enumeration is rendered as the empty string (a list key `[k=]`, a leaf-list member \"\") instead of being skipped or reported")
+		}
+	}
+}
+
+// ---- R-OM-EMPTINESS (C12, C03) -----------------------------------------------------------------
+
+// ruleOMEmptiness: after a deletion below a field, retrieveNodeContainer resets the field when it
+// has become empty. For containers "empty" is "the struct is its zero value"; an ordered map whose
+// entries were all deleted is *not* the zero value of its struct (its key slice and value map stay
+// allocated), so the arm that admits ordered maps must test Len() for them. Otherwise the emptied
+// ordered map keeps its parent list entry alive after the entry's key leaf was deleted.
+func ruleOMEmptiness(c *Ctx, r *Report) {
+	r.Rule("R-OM-EMPTINESS", "in ytypes.retrieveNodeContainer's post-delete reset, the struct-zero test (Elem().IsZero()) is applied only where the field is known not to be an ordered map; an ordered map is empty when GoOrderedMap.Len() == 0", 1)
+	f := c.MustFunc(r, "ytypes", "retrieveNodeContainer")
+	if f == nil {
+		return
+	}
+	info := f.Info()
+	isOMAssertIdent := func(e ast.Expr) bool {
+		id, ok := ast.Unparen(e).(*ast.Ident)
+		if !ok {
+			return false
+		}
+		obj := info.ObjectOf(id)
+		found := false
+		ast.Inspect(f.Decl.Body, func(y ast.Node) bool {
+			as, ok := y.(*ast.AssignStmt)
+			if !ok || len(as.Lhs) != 2 || len(as.Rhs) != 1 || ObjOf(info, as.Lhs[1]) != obj {
+				return true
+			}
+			if ta, ok := ast.Unparen(as.Rhs[0]).(*ast.TypeAssertExpr); ok && ta.Type != nil {
+				if tv, ok := info.Types[ta.Type]; ok && strings.HasSuffix(tv.Type.String(), "ygot.GoOrderedMap") {
+					found = true
+				}
+			}
+			return true
+		})
+		return found
+	}
+	n := 0
+	ast.Inspect(f.Decl.Body, func(x ast.Node) bool {
+		call, ok := x.(*ast.CallExpr)
+		if !ok {
+			return true
+		}
+		recv, m, ok := reflectMethod(info, call)
+		if !ok || m != "IsZero" {
+			return true
+		}
+		if _, m2, ok := reflectMethod(info, recv); !ok || m2 != "Elem" {
+			return true
+		}
+		facts := c.FactsAt(f, call, true)
+		admitsList, underDelete, excluded := false, false, false
+		for _, ft := range facts {
+			if ft.Kind != "cond" {
+				continue
+			}
+			txt := types.ExprString(ft.Cond)
+			if ft.Pos && strings.Contains(txt, "IsList()") && strings.Contains(txt, "IsTypeStructPtr") {
+				admitsList = true
+			}
+			if ft.Pos && strings.HasSuffix(txt, ".delete") {
+				underDelete = true
+			}
+			if !ft.Pos && isOMAssertIdent(ft.Cond) {
+				excluded = true
+			}
+		}
+		if !admitsList || !underDelete {
+			return true
+		}
+		n++
+		r.Check(excluded, fmt.Sprintf("ytypes.retrieveNodeContainer:struct-zero-test#%d", n), c.Pos(call.Pos()), "ordered maps excluded from the struct-zero test",
+			"retrieveNodeContainer decides whether a field that may be an ordered map became empty with "+types.ExprString(call)+": an ordered map whose entries were all deleted is not the zero value of its struct, so it is not reset, its parent list entry is not removed once its leaves are gone, and a ghost entry with a nil key leaf remains (a later Diff of that tree fails)")
+		return true
+	})
+	if n == 0 {
+		r.Und("ytypes.retrieveNodeContainer:struct-zero-test", c.Pos(f.Decl.Pos()), "the post-delete struct-zero test of the arm admitting lists was not found")
+	}
+}
